@@ -248,7 +248,7 @@ class BaseVariantPeptideIdentifier(VariantPeptideIdentifier):
     def is_alternative_splicing(self) -> bool:
         """ Whether this variant peptide has any alternative splicing events """
         alt_splice_types = ['SE', 'A5SS', 'A3SS', 'RI', 'MXE']
-        return any(any(y in x for y in alt_splice_types) for x in self.variant_ids)
+        return any(any(y in x.split('-') for y in alt_splice_types) for x in self.variant_ids)
 
 class CircRNAVariantPeptideIdentifier(VariantPeptideIdentifier):
     """ circRNA variant peptide identifier for output FASTA header """
